@@ -132,6 +132,12 @@ def handler_level(ctx):
                 r = unit([i], True, 1.0 / 3)
                 r["children"] = [unit([i, 1], True)]
                 branches.append(r)
+        if rng.random() < 0.25:
+            # a composite object whose own time stamp already IS the event time while its point masses carry older
+            # ones (every unit has to be advanced, not only branches whose root is behind)
+            for b in branches:
+                if b["children"]:
+                    b["ts"] = [f2b(math.floor(T)), f2b(T - math.floor(T))]
         cases.append({"L": [f2b(x) for x in Ls], "handler": rng.choice(["sampling", "sampling", "end_of_run"]),
                       "interval": f2b(interval if True else 0.0), "k": k, "branches": branches, "kind": kind})
     for c in cases:
